@@ -101,7 +101,7 @@ func runC10(c *Ctx) Info {
 
 	// ---- 2b. OUTPUT-VIEW: the frame handed over may not live in a buffer the next iteration rewrites
 	nViews := c.outputViewRule(e)
-	c.C.Floor("OUTPUT-VIEW", nViews-c.controlCount("OUTPUT-VIEW"), 15)
+	c.C.Floor("OUTPUT-VIEW", nViews-c.controlCount("OUTPUT-VIEW"), 2)
 	c.C.ExpectControl("OUTPUT-VIEW")
 
 	// ---- 5. FLOWS-CONTAINER -----------------------------------------------------------------
